@@ -68,7 +68,7 @@ Definition r_inject (bytes_mode : bool) (e : estep) (r : rst) : rst :=
   | TsTrigger i id | TsAppend i id =>
       mkR (r_ev r) (r_int r ++ [(i, id)]) (r_sched r) (r_sig r) (r_bytes r) (r_nk r)
   | Sigint _ => mkR (r_ev r) (r_int r) (r_sched r) (S (r_sig r)) (r_bytes r) (r_nk r)
-  | TsWrite _ | Signal _ | Tick _ => r
+  | TsWrite _ | Signal _ | Tick _ | Late _ => r
   end.
 
 Definition r_injects (bytes_mode : bool) (es : list estep) (r : rst) : rst :=
